@@ -91,6 +91,11 @@ func resumeThread(L *LState, th *LState, raise bool) int {
 		}
 		return L.GetTop()
 	}
+	if !resumeFits(th, L.GetTop()-1) {
+		// raised by both entry points and th stays suspended (auxresume in lbaselib.c)
+		L.RaiseError("too many arguments to resume")
+		return 0
+	}
 	th.wrapped = raise // how the thread reports back until it suspends or ends again
 	th.Parent = L
 	L.G.CurrentThread = th
@@ -112,6 +117,19 @@ func resumeThread(L *LState, th *LState, raise bool) int {
 	top := L.GetTop()
 	threadRun(th)
 	return L.GetTop() - top
+}
+
+// resumeFits reports whether the registry of th has room for nargs values passed by a resume. They
+// are moved before th runs, so an overflow would not be an error of the coroutine but would unwind
+// the resuming thread and leave th entered. The first resume also sets up the frame of the body
+// (parameters, varargs and registers, see initCallFrame) outside the protected run.
+func resumeFits(th *LState, nargs int) bool {
+	if !th.isStarted() {
+		if fn := th.stack.Last().Fn; !fn.IsG {
+			nargs += int(fn.Proto.NumParameters) + int(fn.Proto.NumUsedRegisters) + 2
+		}
+	}
+	return th.reg.hasRoom(nargs)
 }
 
 // adjustYieldResults is called when a suspended thread is resumed, after the resume values have
